@@ -32,18 +32,18 @@ type (
 		Op   string
 		X, Y SExpr
 	}
-	SCond  struct{ C, A, B SExpr }
-	SCall  struct {
+	SCond struct{ C, A, B SExpr }
+	SCall struct {
 		Fn   string
 		Args []SExpr
 	}
-	SIndex struct{ X, I SExpr }
+	SIndex  struct{ X, I SExpr }
 	SSliceE struct{ X, Lo, Hi SExpr }
-	SSel   struct {
+	SSel    struct {
 		X    SExpr
 		Name string
 	}
-	SQVar struct{ Name, Type string }
+	SQVar  struct{ Name, Type string }
 	SQuant struct {
 		Kind string // forall / exists
 		Vars []SQVar
@@ -456,18 +456,18 @@ type LoopSpec struct {
 type Param struct{ Name, Type string }
 
 type FuncSpec struct {
-	Key      string // SSA-style function name: ParseLine, (*Conn).rateLimit, (*hSet).dispatch$1
-	Pkg      string // short package name: client / state / strings ...
-	Props    []string
-	Safety   []string
-	Attrs    map[string]string // pure, inline, trusted, arith, recovers, maypanic ...
-	Clauses  []*Clause
-	Loops    map[int]*LoopSpec
-	Params   []Param // only for trusted external functions (names for the arguments)
-	Results  []Param
-	File     string
-	Line     int
-	Trusted  bool
+	Key     string // SSA-style function name: ParseLine, (*Conn).rateLimit, (*hSet).dispatch$1
+	Pkg     string // short package name: client / state / strings ...
+	Props   []string
+	Safety  []string
+	Attrs   map[string]string // pure, inline, trusted, arith, recovers, maypanic ...
+	Clauses []*Clause
+	Loops   map[int]*LoopSpec
+	Params  []Param // only for trusted external functions (names for the arguments)
+	Results []Param
+	File    string
+	Line    int
+	Trusted bool
 }
 
 type SpecFn struct {
@@ -500,15 +500,15 @@ type ClosureSpec struct {
 }
 
 type SpecDB struct {
-	Closures []*ClosureSpec
-	ChanNonNil map[string][]string // "Type.field" -> tags: values travelling on this channel are non-nil
-	Funcs   map[string]*FuncSpec // key: pkg + "." + Key
-	SpecFns map[string]*SpecFn
-	Axioms  []*Axiom
-	Guarded map[string]string // "pkg.Type.field" -> lock expression text
-	Order   []string
-	Ghosts  map[string]string // ghost global name ($now) -> type
-	Traces  map[string]bool   // named ghost traces: "$tr", "$wire", ...
+	Closures   []*ClosureSpec
+	ChanNonNil map[string][]string  // "Type.field" -> tags: values travelling on this channel are non-nil
+	Funcs      map[string]*FuncSpec // key: pkg + "." + Key
+	SpecFns    map[string]*SpecFn
+	Axioms     []*Axiom
+	Guarded    map[string]string // "pkg.Type.field" -> lock expression text
+	Order      []string
+	Ghosts     map[string]string // ghost global name ($now) -> type
+	Traces     map[string]bool   // named ghost traces: "$tr", "$wire", ...
 }
 
 // IsTrace reports whether name is a declared trace array ($wire).
@@ -531,7 +531,7 @@ var clauseKeywords = map[string]bool{
 	"property": true, "safety": true, "attr": true, "let": true, "requires": true, "ensures": true,
 	"modifies": true, "loop": true, "invariant": true, "decreases": true, "ghost": true, "step": true,
 	"package": true, "guarded_by": true, "params": true, "results": true, "init": true, "assert": true,
-	"emits": true, "callpre": true, "maintains": true, "ghostvar": true, "trace": true, "closure": true, "bind": true, "chan_nonnil": true,
+	"emits": true, "callpre": true, "maintains": true, "ghostvar": true, "trace": true, "closure": true, "bind": true, "chan_nonnil": true, "hint": true,
 }
 
 // LoadSpecFile reads //@ lines (or all lines for .spec files).
@@ -785,7 +785,7 @@ func (db *SpecDB) LoadSpecFile(path string, trusted bool) error {
 						}
 						cl.Expr = e
 					}
-				case "modifies":
+				case "modifies", "hint":
 					for _, part := range splitTop(text) {
 						e, err := ParseSpecExpr(part)
 						if err != nil {
